@@ -1,6 +1,7 @@
 package gabikeys
 
 import (
+	"sync"
 	"time"
 
 	"github.com/privacybydesign/gabi/big"
@@ -9,6 +10,7 @@ import (
 func init() {
 	vpHarnesses["vpC16_O1"] = vpC16_O1
 	vpHarnesses["vpC16_O2"] = vpC16_O2
+	vpHarnesses["vpC16_O3"] = vpC16_O3
 }
 
 func vpToyParams(ln uint) *SystemParameters {
@@ -61,5 +63,37 @@ func vpC16_O2() {
 	vpAssert("modulus has exactly the requested length", uint(pk.N.BitLen()) == ln)
 	for _, r := range pk.R {
 		vpAssert("bases are reduced", r != nil && r.Sign() > 0 && r.Cmp(pk.N) < 0)
+	}
+}
+
+// C16-O3: two key generations run concurrently (each with its own stream of
+// candidate safe primes). Under every schedule (bounded preemptions) there is
+// no data race between them and both return a pair that meets the conditions
+// of C16-O1: concurrent generations share no working state.
+func vpC16_O3() {
+	ln := uint(vpParam("ln", 64))
+	param := vpToyParams(ln)
+	var ps, qs [2]*big.Int
+	var errs [2]error
+	var wg sync.WaitGroup
+	wg.Add(2)
+	for t := 0; t < 2; t++ {
+		t := t
+		go func() {
+			defer wg.Done()
+			ps[t], qs[t], errs[t] = generateSafePrimePair(param)
+		}()
+	}
+	wg.Wait()
+	for t := 0; t < 2; t++ {
+		p, q := ps[t], qs[t]
+		vpAssert("concurrent pair generation succeeds", errs[t] == nil && p != nil && q != nil)
+		if errs[t] != nil {
+			return
+		}
+		pp, qp := new(big.Int).Rsh(p, 1), new(big.Int).Rsh(q, 1)
+		vpAssert("concurrently generated modulus has exactly the requested length", uint(new(big.Int).Mul(p, q).BitLen()) == ln)
+		vpAssert("concurrently generated p and q differ modulo 8", vpMod8(p) != vpMod8(q))
+		vpAssert("concurrently generated: neither (p-1)/2 nor (q-1)/2 is 1 modulo 8", vpMod8(pp) != 1 && vpMod8(qp) != 1)
 	}
 }
